@@ -47,6 +47,14 @@ Deviations of the code (which the model reproduces), each with a closed countere
 (3) `backend.fieldinverse` raises `ZeroDivisionError` on a non-zero multiple of the modulus whatever
     the guard (`check_zero`, hence `==`, `!=`, secret array indices; `LinComb / int`)
     [C07-field-zero-under-false-guard].
+
+Not a deviation, but an operand condition of the same list (`stepOk`: `selOk`, `asetOk`): a selection
+— `if_then_else`, or a write through a secret array index, which selects element-wise — between two
+lists of DIFFERENT lengths is refused with `ValueError` by the length check of `if_then_else`
+(`fix:` commit of finding C09-list-length-truncated; `zip` used to drop elements silently).  The
+lengths of Python lists are public structure, not values met under the guard: the check is made
+before anything is merged and its outcome is the same under a false guard, a true guard and no guard
+(`C07_length_check_any_state`), like the `ValueError` for a public condition that is not 0/1.
 -/
 namespace Pysnark
 
@@ -83,7 +91,8 @@ theorem C07_inert_entry {regs regs' : List Val} {frames frames' : List GuardBak}
 
 /-- a purely syntactic sufficient condition: bodies built from literals, non-boolean constructors,
 `+ - *`, unary operators, every non-comparing method (`assert_zero`, `assert_positive`,
-`assert_range`, `check_*`, `to_bits`, `val`, …), lists, arrays, nested regions -/
+`assert_range`, `check_*`, `to_bits`, `val`, …), lists, array construction and reads, nested regions
+(selections and array WRITES have operand conditions: `stepOk`) -/
 theorem C07_inert_total_syntactic (body : List Instr) (hall : ∀ i ∈ body, i.alwaysOk = true) (k : Nat)
     (regs : List Val) (frames : List GuardBak) (s : St) (d : Nat)
     (hcfg : ICfg d s regs frames) (hbal : balanced body d = true)
@@ -168,6 +177,19 @@ theorem C07_inert_program (q : Nat) (hq : q.Prime) (bl res : Nat) (prog : List I
     _ _ _ hcfg
   have h := step_err_false_guard (FalseGuard.of_inv hR.inv hg h0) hB hok herr
   constructor <;> (intro he; subst he; simp [Bad] at h)
+
+/-- the length check of a selection does not look at the state: whatever the guard, the error mode
+and the values are, `if_then_else(cond, truev, falsev)` on a list and a list (tuple) of another
+length is `ValueError`, and nothing has been traced.  (So the `ValueError` that `selOk` / `asetOk`
+exclude from `C07_inert_program` is raised identically with and without a guard: it is caused by
+public structure, not by a value met under the guard.) -/
+theorem C07_length_check_any_state (cond : LinComb) (fuel : Nat) (ts fs : List Val) (s : St) (hl : ts.length ≠ fs.length) :
+    iteAux cond (fuel + 1) (.list ts) (.list fs) s = .error .value ∧
+    iteAux cond (fuel + 1) (.list ts) (.tuple fs) s = .error .value := by
+  constructor <;>
+  · unfold iteAux
+    simp only [smallIntSame, Bool.false_eq_true, if_false, if_neg hl]
+    rfl
 
 /-- the same read off the outcome of the run: an exception raised at instruction `j` was raised by
 `prog[j]` in the configuration the run had reached; if the effective guard was 0 there and the
